@@ -6,6 +6,7 @@ CONSTANTS
   NotifyMode = "token"
   TempApps = {}
   TwoPhaseApps = {1, 2}
+  DrainOnlyApps = {}
   ExitMode = "recheck"
 INVARIANTS FIFO DrainSound NoHang LockOK OneAtATime
 CHECK_DEADLOCK FALSE
